@@ -40,6 +40,13 @@ FOCUS = {
        "existing tests miss but that makes THIS property fail for particular inputs. Prefer conditions that depend on the "
        "data (particular characters, particular name / prefix / namespace relationships, particular positions in the tree) "
        "over conditions that depend on sizes.",
+    6: "ROUND 6. Think like a maintainer doing performance work and API clean-up: introduce a cache, memo, fast path, early "
+       "exit, batch operation, changed iteration strategy, reused buffer, or an index replacing a scan - each CORRECT for the "
+       "common case but wrong in one corner that depends on the data or on the call history (stale after one particular kind "
+       "of mutation, wrong when two keys collide, wrong for the first / last / only item, wrong for non-ASCII data, wrong "
+       "after an earlier call failed, wrong on the second call). Also consider pairs of equivalent entry points that must "
+       "agree (String vs io::Write, *_with_span_info vs plain, document vs fragment, bytes vs str, tokens vs string, map-style "
+       "vs node-style, the node itself vs its document as argument) and make exactly ONE of a pair go wrong.",
 }
 for pid in want:
     wt = "/tmp/wt%d-%s" % (rnd, pid)
